@@ -40,6 +40,9 @@ type Consts struct {
 	Oracle        []string         `json:"Oracle"`
 	Stake         map[string]int64 `json:"Stake"`
 	W             int64            `json:"W"`
+	Unit          int64            `json:"Unit"`       // stake units per power unit (Stake, AddStake amounts and thresholds are in stake units)
+	Threshold0    int64            `json:"Threshold0"` // initial params.DelegateThreshold, stake units
+	Multiple      int64            `json:"Multiple"`   // params.DelegateMultiple
 	DepositBlocks int64            `json:"DepositBlocks"`
 	VotingBlocks  int64            `json:"VotingBlocks"`
 	ExpBlocks     int64            `json:"ExpBlocks"`
@@ -60,6 +63,9 @@ type Adapter struct {
 	// LastTickErr is the error/panic of the last failed Tick (diagnostics).
 	LastTickErr string
 }
+
+// stakeUnit is one stake unit of the specification in base units of FX (powerUnit / Unit).
+func (a *Adapter) stakeUnit() sdkmath.Int { return powerUnit.QuoRaw(a.C.Unit) }
 
 func (a *Adapter) oracleKey(o string) *helpers.Signer  { return a.W.Key(a.Chain + "/oracle/" + o) }
 func (a *Adapter) bridgerKey(o string) *helpers.Signer { return a.W.Key(a.Chain + "/bridger/" + o) }
@@ -114,6 +120,18 @@ func must(err error) {
 // oracles approved but none bonded, FX bridge token known, an external height observed.
 func New(t *testing.T, c Consts) *Adapter {
 	w := world.New(t, 2)
+	if c.Unit == 0 {
+		c.Unit = 1
+	}
+	if c.Threshold0 == 0 {
+		c.Threshold0 = c.Unit
+	}
+	if c.Multiple == 0 {
+		c.Multiple = 1000
+	}
+	if !powerUnit.QuoRaw(c.Unit).MulRaw(c.Unit).Equal(powerUnit) {
+		t.Fatalf("Unit %d does not divide the power unit", c.Unit)
+	}
 	a := &Adapter{W: w, C: c, Chain: c.Chain, K: keeperOf(w, c.Chain)}
 	a.storeKey = w.App.GetKey(c.Chain)
 	for i := int64(0); i < c.W+2; i++ {
@@ -125,8 +143,8 @@ func New(t *testing.T, c Consts) *Adapter {
 	// crosschain params through the governance-authority message
 	p := a.K.GetParams(ctx)
 	p.SignedWindow = uint64(c.W)
-	p.DelegateThreshold = types.NewDelegateAmount(powerUnit)
-	p.DelegateMultiple = 1000
+	p.DelegateThreshold = types.NewDelegateAmount(a.stakeUnit().MulRaw(c.Threshold0))
+	p.DelegateMultiple = c.Multiple
 	must(w.Handle(ctx, &types.MsgUpdateParams{ChainName: c.Chain, Authority: world.GovAddr(), Params: p}))
 	// gov params: periods in blocks
 	gp, err := w.App.GovKeeper.Params.Get(ctx)
@@ -344,7 +362,7 @@ func (a *Adapter) ApplyMsg(ctx sdk.Context, op graph.Op) error {
 		return w.Handle(ctx, &types.MsgBondedOracle{
 			ChainName: a.Chain, OracleAddress: a.oracleKey(o).AccAddress().String(), BridgerAddress: a.bridgerKey(o).AccAddress().String(),
 			ExternalAddress: a.ext(o), ValidatorAddress: w.ValAddr[0].String(),
-			DelegateAmount: types.NewDelegateAmount(powerUnit.MulRaw(a.C.Stake[o])),
+			DelegateAmount: types.NewDelegateAmount(a.stakeUnit().MulRaw(a.C.Stake[o])),
 		})
 	case "GovRemove":
 		o := op.Str("o")
@@ -357,7 +375,12 @@ func (a *Adapter) ApplyMsg(ctx sdk.Context, op graph.Op) error {
 		return w.Handle(ctx, &types.MsgUpdateChainOracles{ChainName: a.Chain, Authority: world.GovAddr(), Oracles: a.approvedList(ctx, addr)})
 	case "AddStake":
 		return w.Handle(ctx, &types.MsgAddDelegate{ChainName: a.Chain, OracleAddress: a.oracleKey(op.Str("o")).AccAddress().String(),
-			Amount: types.NewDelegateAmount(powerUnit.MulRaw(op.Int("n")))})
+			Amount: types.NewDelegateAmount(a.stakeUnit().MulRaw(op.Int("n")))})
+	case "SetThreshold":
+		// the crosschain MsgUpdateParams of the governance authority: current params, new DelegateThreshold
+		p := a.K.GetParams(ctx)
+		p.DelegateThreshold = types.NewDelegateAmount(a.stakeUnit().MulRaw(op.Int("n")))
+		return w.Handle(ctx, &types.MsgUpdateParams{ChainName: a.Chain, Authority: world.GovAddr(), Params: p})
 	case "CreateBatch":
 		// one transaction: MsgSendToExternal then MsgRequestBatch
 		return world.Atomic(ctx, func(c sdk.Context) error {
@@ -415,6 +438,15 @@ func (a *Adapter) Apply(ctx sdk.Context, op graph.Op) (sdk.Context, string) {
 	return ctx, "ok"
 }
 
+// unitsOf renders an amount in stake units; an amount that is not a whole number of stake units is outside the
+// model's name space.
+func unitsOf(amount, unit sdkmath.Int) any {
+	if !amount.Mod(unit).IsZero() {
+		return "?" + amount.String()
+	}
+	return amount.Quo(unit).Int64()
+}
+
 func (a *Adapter) capAge(now int64, h uint64) int64 {
 	age := now - int64(h)
 	if age > a.C.W+1 {
@@ -426,8 +458,8 @@ func (a *Adapter) capAge(now int64, h uint64) int64 {
 	return age
 }
 
-// Project reads the crosschain store raw (prefixes 0x12 0x15 0x16 0x20 0x21 0x22 0x28 0x29 0x30 0x33 0x38 0x39 0x45
-// 0x46 0x48) and the gov proposals into EndBlock.tla's Abs.
+// Project reads the crosschain store raw (prefixes 0x12 0x15 0x16 0x20 0x21 0x22 0x28 0x29 0x30 0x33 0x38 0x39 0x40
+// 0x45 0x46 0x48) and the gov proposals into EndBlock.tla's Abs.
 func (a *Adapter) Project(ctx sdk.Context) any {
 	st := ctx.KVStore(a.storeKey)
 	cdc := a.W.App.AppCodec()
@@ -441,7 +473,7 @@ func (a *Adapter) Project(ctx sdk.Context) any {
 	}
 	reg, online, approved := map[string]bool{}, map[string]bool{}, map[string]bool{}
 	start := map[string]int64{}
-	power := map[string]int64{}
+	power, stake := map[string]int64{}, map[string]any{}
 	byAddr, byExt := map[string]string{}, map[string]string{}
 	var po types.ProposalOracle
 	if bz := st.Get(types.ProposalOracleKey); bz != nil {
@@ -456,13 +488,21 @@ func (a *Adapter) Project(ctx sdk.Context) any {
 		byAddr[string(addr.Bytes())] = o
 		byExt[a.ext(o)] = o
 		approved[o] = appr[addr.String()]
-		reg[o], online[o], power[o] = false, false, 0
+		reg[o], online[o], power[o], stake[o] = false, false, 0, int64(0)
 		if bz := st.Get(types.GetOracleKey(addr)); bz != nil {
 			var or types.Oracle
 			cdc.MustUnmarshal(bz, &or)
 			reg[o], online[o], start[o] = true, or.Online, or.StartHeight
 			power[o] = or.DelegateAmount.Quo(powerUnit).Int64()
+			stake[o] = unitsOf(or.DelegateAmount, a.stakeUnit())
 		}
+	}
+	// params.DelegateThreshold (raw params record, prefix 0x40) in stake units
+	var threshold any = "?no params"
+	if bz := st.Get(types.ParamsKey); bz != nil {
+		var pr types.Params
+		cdc.MustUnmarshal(bz, &pr)
+		threshold = unitsOf(pr.DelegateThreshold.Amount, a.stakeUnit())
 	}
 	var total int64
 	if bz := st.Get(types.LastTotalPowerKey); bz != nil {
@@ -525,19 +565,19 @@ func (a *Adapter) Project(ctx sdk.Context) any {
 		cf := confs(types.GetOracleSetConfirmKey(n, sdk.AccAddress{}))
 		os, ok := found[n]
 		if !ok {
-			sets = append(sets, map[string]any{"ex": false, "age": a.C.W + 1, "conf": cf, "elig": flags(), "np": zeros()})
+			sets = append(sets, map[string]any{"ex": false, "age": a.C.W + 1, "conf": cf, "elig": flags(), "mem": flags(), "np": zeros()})
 			continue
 		}
 		// members' normalised powers (32 bit in the store) at 20 bits
-		np := zeros()
+		np, mem := zeros(), flags()
 		for _, m := range os.Members {
 			if o, ok := byExt[m.ExternalAddress]; ok {
-				np[o] = int64(m.Power / 4096)
+				np[o], mem[o] = int64(m.Power/4096), true
 			} else {
-				np["?"+m.ExternalAddress] = int64(m.Power / 4096)
+				np["?"+m.ExternalAddress], mem["?"+m.ExternalAddress] = int64(m.Power/4096), true
 			}
 		}
-		sets = append(sets, map[string]any{"ex": true, "age": a.capAge(now, os.Height), "conf": cf, "elig": elig(os.Height), "np": np})
+		sets = append(sets, map[string]any{"ex": true, "age": a.capAge(now, os.Height), "conf": cf, "elig": elig(os.Height), "mem": mem, "np": np})
 	}
 	var lastObs int64
 	if bz := st.Get(types.LastObservedOracleSetKey); bz != nil {
@@ -649,7 +689,7 @@ func (a *Adapter) Project(ctx sdk.Context) any {
 		props = append(props, map[string]any{"kind": p.Title, "status": status, "left": left})
 	}
 	return map[string]any{
-		"reg": reg, "online": online, "approved": approved, "power": power, "totalPower": total,
+		"reg": reg, "online": online, "approved": approved, "stake": stake, "power": power, "totalPower": total, "threshold": threshold,
 		"sets": sets, "latest": latest, "slashedSet": u64(types.LastSlashedOracleSetNonce), "lastObsSet": lastObs,
 		"batches": batches, "slashedBatch": slashedBatch, "calls": calls, "slashedCall": u64(types.LastSlashedBridgeCallNonce),
 		"props": props,
